@@ -101,7 +101,7 @@ SPEC = TreeSpec(
     nontrivial=nontrivial,
     sample_of=sample_of,
     reset=_reset,
-    quick_examples=10,
+    quick_examples=25,
     thorough_examples=60,
     assumptions=("hang detection is by read-call count, not by wall clock",),
 )
